@@ -14,6 +14,8 @@ CLAIMED = {
             "DESIGN.md 3/C12", "bounded model checking of the real code (Kani 0.68 / CBMC 6.11 + CaDiCaL), differential vs. H.263 6.1.1 oracle"),
     "C13": ("Bounded model checking: the plane-size relations of DecodedPicture::new hold for every (width, height) with up to 2^22 samples (both symbolic, one query), and for enumerated picture sizes each plane passes through deblock() with the tabulated strength for every quantizer and the three planes through yuv420_to_rgba without panic and with the exact output length.",
             "DESIGN.md 3/C13", "bounded model checking of the real code (Kani 0.68 / CBMC 6.11 + CaDiCaL)"),
+    "C14": ("Bounded model checking of the real bit reader (VecDeque buffer, real io errors): for generated operation sequences with fully symbolic source bytes, every returned value, error kind and the position after every operation equal a bit-vector model; start-code recognition is checked against its specification. Exhaustive over short sequences of an operation/width alphabet, seeded for longer ones.",
+            "DESIGN.md 3/C14", "bounded model checking of the real code (Kani 0.68 / CBMC 6.11 + CaDiCaL), differential vs. bit-vector model, generated operation sequences"),
     "C16": ("Bounded model checking of deblock() for every enumerated image size with fewer than two rows or fewer than ten columns (and small sizes with edges), symbolic content and strength: no panic / overflow / out-of-bounds, output equals the Annex J model; the strength table equals Table J.2 entry by entry.",
             "DESIGN.md 3/C16", "bounded model checking of the real code (Kani 0.68 / CBMC 6.11 + CaDiCaL)"),
     "C07": ("Bounded model checking of the compiled 4-pixel kernel against the 16.16 fixed-point BT.601 formula for every input byte combination (all 2^24 colours in every lane), the formula itself shown within 1 of the exact rational BT.601 conversion, alpha 255, and monotonicity of each channel. No bound on values.",
